@@ -514,6 +514,28 @@ func scStorm(variant int) func(x *vs.Exec) {
 				vs.Observe("pc %s", c.Reg(&msg.NewProxy{ProxyName: "pc", ProxyType: "tcp", RemotePort: 20003}))
 				c.CloseProxy("pc")
 			})
+		case 6: // users routed by the vhost muxer (HTTP CONNECT) are handed to their proxy's listener while that proxy closes / its session is cut
+			a.AutoWork()
+			b.AutoWork()
+			if r := a.Reg(&msg.NewProxy{ProxyName: "ma", ProxyType: "tcpmux", Multiplexer: "httpconnect", CustomDomains: []string{"ma.example.com"}}); !strings.HasPrefix(r, "ok") {
+				vs.Fail("setup: %s", r)
+			}
+			if r := b.Reg(&msg.NewProxy{ProxyName: "mb", ProxyType: "tcpmux", Multiplexer: "httpconnect", CustomDomains: []string{"mb.example.com"}}); !strings.HasPrefix(r, "ok") {
+				vs.Fail("setup: %s", r)
+			}
+			w.Quiesce()
+			for i, h := range []string{"ma.example.com", "mb.example.com", "ma.example.com"} {
+				i, h := i, h
+				run(func() {
+					u, e := w.ConnectMux(fmt.Sprintf("10.6.7.%d:70", i+1), h, "")
+					vs.Observe("mux user %d: %v", i, e == "")
+					if u != nil {
+						u.Close()
+					}
+				})
+			}
+			run(func() { a.CloseProxy("ma") })
+			run(func() { b.Cut() })
 		case 4: // NAT-hole sessions of two visitors start, are answered / looked up and end concurrently
 			if r := a.Reg(&msg.NewProxy{ProxyName: "x", ProxyType: "xtcp", Sk: "sk", AllowUsers: []string{"*"}}); !strings.HasPrefix(r, "ok") {
 				vs.Fail("setup: %s", r)
@@ -791,7 +813,7 @@ func main() {
 	if c == nil {
 		return
 	}
-	c.Rule("E1: (a) all single-field deviations over extreme-value alphabets (negative / huge integers, empty / 9000-char / control-character strings, nil / empty / 300-entry maps, nil / empty / 1000-entry lists, malformed addresses) of all 18 message types (NewProxy for all 8 proxy types) sent to the real frps as first message of a connection and on an established session, and of the server-to-client types sent by a model server to the real frpc; (a2) malformed user-side input on the tcpmux CONNECT port (14 Proxy-Authorization shapes x 2 hosts, 14 malformed request heads) and on the https port (a real ClientHello with each of its first 80 bytes set to 0xff / 0x00 or truncated there); after each case a bystander session, its tunnel, a fresh login and a fresh tunnel must work, no managed thread may have panicked (= process crash) and none may be stuck after teardown; (b) six concurrent mixed-traffic storms, the statistics collector of the dashboard switched on (registration / closure / groups / session cut; secret proxies, visitors and NAT-hole messages against closing proxies; re-login with work connections for dying sessions; user connections waiting for a work connection while the session is cut; NAT-hole sessions of two visitors starting, being answered and ending together; two users' traffic through two proxies while a third proxy comes and goes) and the control connection's request/response lanes with duplicated, late and too-late answers, and the in-process listener (two puts, an accepting owner, a close) (3 deviations each), a client that is stopped while it logs in or right after (2 deviations), under all schedules with at most B deviations (two default orders) with the happens-before detector on every struct-field map of the instrumented packages; non-trivial = distinct (position, type, field, value)")
+	c.Rule("E1: (a) all single-field deviations over extreme-value alphabets (negative / huge integers, empty / 9000-char / control-character strings, nil / empty / 300-entry maps, nil / empty / 1000-entry lists, malformed addresses) of all 18 message types (NewProxy for all 8 proxy types) sent to the real frps as first message of a connection and on an established session, and of the server-to-client types sent by a model server to the real frpc; (a2) malformed user-side input on the tcpmux CONNECT port (14 Proxy-Authorization shapes x 2 hosts, 14 malformed request heads) and on the https port (a real ClientHello with each of its first 80 bytes set to 0xff / 0x00 or truncated there); after each case a bystander session, its tunnel, a fresh login and a fresh tunnel must work, no managed thread may have panicked (= process crash) and none may be stuck after teardown; (b) seven concurrent mixed-traffic storms, the statistics collector of the dashboard switched on (registration / closure / groups / session cut; secret proxies, visitors and NAT-hole messages against closing proxies; re-login with work connections for dying sessions; user connections waiting for a work connection while the session is cut; NAT-hole sessions of two visitors starting, being answered and ending together; two users' traffic through two proxies while a third proxy comes and goes; users routed by the CONNECT muxer handed to their proxy's listener while that proxy closes / its session is cut) and the control connection's request/response lanes with duplicated, late and too-late answers, and the in-process listener (two puts, an accepting owner, a close) (3 deviations each), a client that is stopped while it logs in or right after (2 deviations), a visitor of each kind whose bind port is busy (1 deviation), under all schedules with at most B deviations (two default orders) with the happens-before detector on every struct-field map of the instrumented packages; non-trivial = distinct (position, type, field, value)")
 	pool := vs.GetPool(c.Workers)
 	var names []string
 	wdummy := map[string]msg.Message{}
@@ -864,8 +886,8 @@ func main() {
 	c.Sample(map[string]any{"cases": []string{names[0], names[len(names)/2], names[len(names)-1]}})
 	c.Note("field_cases", len(names))
 	b := drv.Pick(c, 1, 2)
-	for v := 0; v < 6; v++ {
-		c.ExploreBoth(fmt.Sprintf("storm|%d", v), b, 1.0/float64(6-v+1))
+	for v := 0; v < 7; v++ {
+		c.ExploreBoth(fmt.Sprintf("storm|%d", v), b, 1.0/float64(7-v+1))
 	}
 	for _, v := range []string{"one", "dup", "late", "after"} {
 		c.ExploreBoth("lane|"+v, 3, 0.25)
